@@ -241,6 +241,25 @@ def hierarchy(sysd):
     return max(1.0, size / dmin) if dmin > 0 else 1e30
 
 
+def min_separation(sysd):
+    ps = sysd["particles"]
+    return min(math.sqrt(sum((p.get(k, 0.0) - q.get(k, 0.0)) ** 2 for k in ("x", "y", "z")))
+               for i, p in enumerate(ps) for q in ps[:i])
+
+
+def outside_regime(sysd, ref, ctx):
+    """Domain guard (not a verdict): the property is about collision-free, well-separated systems.  Generated
+    comparable-mass systems are occasionally unstable (seen: backward in time two bodies of 0.1 and 0.05 stellar
+    masses approach to 0.15 of an initial separation of 1.5 and every integrator loses all accuracy).  The reference
+    trajectory reports the smallest pair distance it saw; cases that come closer than a quarter of the smallest
+    initial separation are counted and skipped."""
+    d = ref.get("dmin", -1.0)
+    if d >= 0.0 and d < 0.25 * min_separation(sysd):
+        ctx.skip("close approach in the reference trajectory (< 0.25 of the smallest initial separation): outside the regime")
+        return True
+    return False
+
+
 def size_speed(sysd):
     ps = sysd["particles"]
     L = max(math.sqrt(p.get("x", 0.0) ** 2 + p.get("y", 0.0) ** 2 + p.get("z", 0.0) ** 2) for p in ps)
@@ -560,6 +579,8 @@ def run_order(case, ctx):
     n0 = n0_for(case["norb"], sysd["P_min"], dt0)
     Es, refs, tdev = fixed_levels(sysd, cfg, dt0, n0, backward, cache=case.get("cache", False))
     ref = refs[-1]
+    if outside_regime(sysd, ref, ctx):
+        return
     floors = [floor_for(sysd, cfg, n0 * 2 ** k) for k in range(len(Es))]
     details = {"dt0": dt0, "n0": n0, "regime": regime}
     what = "%s %s %s%s%s" % (fam, short(cfg), regime, " backward" if backward else "",
@@ -683,6 +704,8 @@ def run_adaptive(case, ctx):
     T = sgn * snap(case["norb"] * sysd["P_min"])
     ref = c01_ref.reference(ref_spec(sysd), [T])[0]
     H = hierarchy(sysd)
+    if outside_regime(sysd, ref, ctx):
+        return
 
     class Collapse(Exception):
         pass
@@ -1216,6 +1239,8 @@ def run_two_leg(case, ctx):
     dt0 = snap(sysd["P_min"] / dt0_div(cfgB, regime))
     n0 = n0_for(case["norb"], sysd["P_min"], dt0)
     Es, refs, tdev = fixed_levels(mid, cfgB, dt0, n0, backward, mk=mk, rspec=ref_spec(mid), t_offset=t1)
+    if outside_regime(mid, refs[-1], ctx):
+        return
     floors = [floor_for(mid, cfgB, n0 * 2 ** k) for k in range(len(Es))]
     anchors = check_rate(Es, floors, p, ctx, what, {"dt0": dt0, "n0": n0, "regime": regime, "t1": t1})
     if tdev > 4.0:
@@ -1461,6 +1486,8 @@ def run_two_leg_adaptive(case, ctx):
     loose, tight = (1e-8, 1e-9) if fam == "ias15" else (case["eps"], case["eps"] / 100.0)
     try:
         El, nl, ref = run(loose)
+        if outside_regime(sysd, ref, ctx):
+            return
         Et, nt, _ = run(tight, ref)       # leg 1 does not depend on the tolerance of leg 2: same synchronized state
     except Collapse:
         ctx.cls("step_collapse:%s" % fam)
